@@ -661,6 +661,14 @@ impl Open for VirtualSystem {
         } else {
             Err(Errno::EMFILE)
         };
+        // An injected EMFILE is decided here, before the file system is
+        // touched, as a real kernel would fail.
+        #[cfg(feature = "verif-hooks")]
+        let resolution = if sim_hook::fail_fd_alloc(self.process_id, "open") {
+            Err(Errno::EMFILE)
+        } else {
+            resolution
+        };
         let system = self.clone();
 
         async move {
@@ -695,6 +703,8 @@ impl Open for VirtualSystem {
                 Self::wait_for_fifo_to_become_ready(&open_file_description).await;
             }
 
+            #[cfg(feature = "verif-hooks")]
+            sim_hook::suppress_next_fd_alloc_check();
             system.create_fd(Rc::new(RefCell::new(open_file_description)), flags)
         }
     }
